@@ -25,11 +25,19 @@ EXPLANATION = (
     "for incomparable information, equal information is equality of space and spin. "
     "R09c: for every scenario (single deltas, chains and stars of up to three deltas, a contracted index shared by two deltas whose partners are targets, spectators, numeric prefactors, sums, non-products; both "
     "argument orders of every delta, both factor orders; targets by the summation convention = indices on exactly "
-    "one factor, or explicit as Index list / name string) within the precondition of the property (every contracted "
-    "index sits on a non-delta factor) the returned expression has the same polynomial value for every assignment "
+    "one factor, or explicit as Index list / single Index / name string) without vanishing deltas (the precondition of the "
+    "property - every contracted index sits on a non-delta factor - is not needed) the returned expression has the same polynomial value for every assignment "
     "of the target indices, and it is in normal form: no remaining delta could still be evaluated without "
     "removing a target or losing information (stale deltas after a substitution, targets lost in the recursion or "
-    "in the Add branch, wrong target determination all show up here).")
+    "in the Add branch, wrong target determination all show up here). The domain includes contracted indices that "
+    "sit on deltas only: a delta whose two indices are contracted and occur on no other factor has to stay (its sum "
+    "is the dimension of the common space), which the value comparison decides. "
+    "R09d (callers): func.wicks is evaluated on operator strings Fd/F over occ/virt/general indices times tensors "
+    "with the contraction code inlined, once without and once with simplify_kronecker_deltas: both results have the "
+    "same value for every assignment of the target indices of the input (indices on a single object of the operator "
+    "string), and no substitution removes such an index (the general-general contraction delta_pq delta_qi puts a "
+    "target on two deltas). Obj.diagonalize_fock is evaluated for all (space,spin)^2 fock elements and target sets: "
+    "the returned substitution and diagonal element remove a contracted index only, without loss of information.")
 ASSUMPTIONS = [
     "sympy's subs/xreplace replace every occurrence of the removed index; Mul/Add rebuild as modelled (delta of "
     "identical indices = 1, of incompatible indices = 0, equal deltas merge, single factor products collapse)",
@@ -38,6 +46,12 @@ ASSUMPTIONS = [
     "deltas keep the argument order produced by the substitution (sympy would re-sort them canonically); the "
     "property is required for both orders",
     "termination/confluence of the recursion for longer chains follow from the per-step rules but are not proved",
+    "a bare delta (not a product) is returned untouched by design; the normal form is required of products only",
+    "callers that rely on the summation convention and are not evaluated here (intermediate_states: precursor/overlap/"
+    "s_root projections, SecularMatrix.mvp_block_order, simplify_unitary without provided targets) hand over products "
+    "of wicks(..., simplify_kronecker_deltas=True) results and tensors in which every target index sits on an occ/virt "
+    "excitation operator or a single tensor, hence on at most one delta; this is not decided",
+    "wicks: strings of 2 and 4 operators, spin-less indices (contractions of spin indices are refused by the library)",
 ]
 
 FN = "func:evaluate_deltas"
@@ -87,12 +101,48 @@ class Algebra:
         self.names = {}     # name -> index atom (spin-less ones are what get_symbols(str) returns)
         self.zero = self._atom(None, "0", kind="num", value=Fraction(0), indices=(), args=(), _classes=NUM_CLS + ("Zero", "Integer"))
         self.one = self._atom(None, "1", kind="num", value=Fraction(1), indices=(), args=(), _classes=NUM_CLS + ("One", "Integer"))
+        self.neg_one = self._atom(None, "-1", kind="num", value=Fraction(-1), indices=(), args=(), _classes=NUM_CLS + ("NegativeOne", "Integer"))
+        self.fresh = 0
 
-    @staticmethod
-    def _atom(cls, name, **attrs):
+    def binop(self, sx, op, a, b, node):
+        """Arithmetic of the model values (``*``, ``+``, ``-`` as sympy builds products and sums)."""
+        import ast as _ast
+        ok = lambda v: kind(v) is not None or (isinstance(v, (int, Fraction)) and not isinstance(v, bool))
+        if not (ok(a) and ok(b)):
+            return NotImplemented
+        if isinstance(op, _ast.Mult):
+            return self.mul([a, b])
+        if isinstance(op, _ast.Add):
+            return self.add([a, b])
+        if isinstance(op, _ast.Sub):
+            return self.add([a, self.mul([-1, b])])
+        return NotImplemented
+
+    def op(self, which, i):
+        """Second-quantised operator Fd(i) / F(i) (non commutative factor)."""
+        base = ("CreateFermion", "Creator") if which == "Fd" else ("AnnihilateFermion", "Annihilator")
+        return self._atom(None, f"{which}({i.name})", kind="op", opk=which, args=(i,), state=i, indices=(i,), is_commutative=False,
+                          _classes=(which,) + base + ("FermionicOperator", "SqOperator", "Expr", "Basic"))
+
+    def expand(self, e):
+        k = kind(e)
+        if k == "add":
+            return self.add([self.expand(t) for t in e.args])
+        if k == "mul":
+            acc = [[]]
+            for f in e.args:
+                f = self.expand(f)
+                parts = list(f.args) if kind(f) == "add" else [f]
+                acc = [x + [q] for x in acc for q in parts]
+            return self.add([self.mul(x) for x in acc])
+        return e
+
+    def _atom(self, cls, name, **attrs):
         a = Atom(cls, name)
         a.attrs.update(attrs)
         k = attrs.get("kind")
+        a.attrs.setdefault("is_commutative", True)
+        a.attrs["$binop"] = self.binop
         # sympy's class flags (an alternative spelling of the isinstance tests)
         a.attrs.update(_scalar=True, is_Add=k == "add", is_Mul=k == "mul", is_Number=k == "num", is_Symbol=k == "index",
                        is_Atom=k in ("num", "index"), is_Pow=False, is_Function=k == "delta")
@@ -112,7 +162,7 @@ class Algebra:
 
     def tensor(self, name, idx):
         idx = tuple(idx)
-        return self._atom(None, f"{name}({','.join(i.name for i in idx)})", kind="tensor", tname=name, indices=idx,
+        return self._atom(None, f"{name}({','.join(i.name for i in idx)})", kind="tensor", tname=name, indices=idx, args=idx,
                           _classes=TENSOR_CLS)
 
     def num(self, v):
@@ -121,6 +171,8 @@ class Algebra:
             return self.zero
         if v == 1:
             return self.one
+        if v == -1:
+            return self.neg_one
         return self._atom(None, str(v), kind="num", value=v, indices=(), args=(), _classes=NUM_CLS)
 
     def delta(self, x, y, evaluate=True):
@@ -148,7 +200,7 @@ class Algebra:
                 if key not in seen:     # delta**2 = delta
                     seen.add(key)
                     rest.append(f)
-            elif k in ("tensor", "add", "index"):
+            elif k in ("tensor", "add", "index", "op"):
                 rest.append(f)
             else:
                 raise AnalysisError(f"C09 model: product of an unmodelled factor {f!r}")
@@ -237,7 +289,7 @@ class Algebra:
             if k in ("mul", "add"):
                 for f in e.args:
                     out.extend(nodes(f))
-            elif k in ("tensor", "delta"):
+            elif k in ("tensor", "delta", "op"):
                 out.extend(e.indices)
             return out
 
@@ -263,6 +315,21 @@ class Algebra:
                     n = cls_names([pat])[0]
                     found = found or any(n in x.attrs["_classes"] for x in nodes(a[0]))
             return found
+
+        def h_generic(sx, a, kw):
+            out = {}
+            for key, n in kw.items():
+                sp, _, spin = key.partition("_")
+                out[(sp, spin)] = []
+                for _k in range(n):
+                    self.fresh += 1
+                    out[(sp, spin)].append(self.index(f"{NAMES[sp][0]}{90 + self.fresh}", sp, spin))
+            return out
+
+        def h_pow(sx, a, kw):
+            if a[1] == 1 or a[1] is self.one:
+                return a[0]
+            raise AnalysisError(f"C09 model: power {a!r}")
 
         def h_make_args(which):
             def h(sx, a, kw):
@@ -330,7 +397,14 @@ class Algebra:
                 "Mul.make_args": h_make_args("mul"), "Add.make_args": h_make_args("add"),
                 "as_ordered_factors": h_ordered("mul"), "as_ordered_terms": h_ordered("add"),
                 "Add": lambda sx, a, kw: self.add(a), "Mul": lambda sx, a, kw: self.mul(a),
-                "KroneckerDelta": lambda sx, a, kw: self.delta(a[0], a[1])}
+                "KroneckerDelta": lambda sx, a, kw: self.delta(a[0], a[1]),
+                "S": self._atom(None, "S", Zero=self.zero, One=self.one, NegativeOne=self.neg_one),
+                "doit": lambda sx, a, kw: need(a[0], "doit()") or a[0],
+                "expand": lambda sx, a, kw: need(a[0], "expand()") or self.expand(a[0]),
+                "Indices": lambda sx, a, kw: self._atom(None, "Indices()"),
+                "get_generic_indices": h_generic,
+                "NonSymmetricTensor": lambda sx, a, kw: self.tensor(a[0], a[1]),
+                "Pow": h_pow}
 
 
 def _split(s):
@@ -428,9 +502,20 @@ def delta_classes(alg, e):
     return find
 
 
-def evaluable(x, y, targets):
-    """Reference: delta(x, y) can be removed by replacing a non-target index by one with at least its information."""
-    return (x not in targets and geq(y, x)) or (y not in targets and geq(x, y))
+def isolated(alg, f, term, targets):
+    """delta(x, y) with both indices contracted and on no other factor of the term: sum_xy delta_xy is the dimension
+    of the common space, no index can be removed without losing the sum."""
+    x, y = f.args
+    if x in targets or y in targets:
+        return False
+    return not any(g is not f and (x in alg.indices_of(g) or y in alg.indices_of(g)) for g in factors_of(term))
+
+
+def evaluable(alg, f, term, targets):
+    """Reference: delta(x, y) can be removed by replacing a non-target index by one with at least its information,
+    unless it is isolated."""
+    x, y = f.args
+    return ((x not in targets and geq(y, x)) or (y not in targets and geq(x, y))) and not isolated(alg, f, term, targets)
 
 
 def einstein_targets(alg, term):
@@ -443,16 +528,11 @@ def einstein_targets(alg, term):
 
 
 def precondition(alg, e, targets):
-    """Every contracted index occurs on at least one non-delta factor; no vanishing delta."""
+    """Domain of the scenarios: no vanishing delta (it would have evaluated to zero).  Contracted indices that sit on
+    deltas only are inside the domain: the value (a dimension) has to be preserved as well."""
     for t in terms_of(e):
-        on_other = set()
         for f in factors_of(t):
-            if kind(f) != "delta":
-                on_other.update(alg.indices_of(f))
-            elif not (dom(f.args[0]) & dom(f.args[1])):
-                return False
-        for i in alg.indices_of(t):
-            if i not in targets and i not in on_other:
+            if kind(f) == "delta" and not (dom(f.args[0]) & dom(f.args[1])):
                 return False
     return True
 
@@ -478,6 +558,11 @@ TEMPLATES = {
     "d(x,y) d(x,z) X(x) Y(y) Z(z)": (3, [("d", 0, 1), ("d", 0, 2), ("t", "X", (0,)), ("t", "Y", (1,)), ("t", "Z", (2,))]),
     "d(x,y) d(y,z) d(z,w) X(y) Y(z)": (4, [("d", 0, 1), ("d", 1, 2), ("d", 2, 3), ("t", "X", (1,)), ("t", "Y", (2,))]),
     "d(x,y) d(x,z) d(x,w) X(x)": (4, [("d", 0, 1), ("d", 0, 2), ("d", 0, 3), ("t", "X", (0,))]),
+    # deltas whose indices sit on deltas only: sum_xy delta_xy is a dimension and has to survive
+    "d(x,y) X(z)": (3, [("d", 0, 1), ("t", "X", (2,))]),
+    "2 d(x,y)": (2, [("n", 2), ("d", 0, 1)]),
+    "d(x,y) d(y,z) X(w)": (4, [("d", 0, 1), ("d", 1, 2), ("t", "X", (3,))]),
+    "d(x,y) d(y,z) d(z,x) X(w)": (4, [("d", 0, 1), ("d", 1, 2), ("d", 2, 0), ("t", "X", (3,))]),
     "d(x,y) d(z,w) X(x,z) Y(y) Z(w)": (4, [("d", 0, 1), ("d", 2, 3), ("t", "X", (0, 2)), ("t", "Y", (1,)), ("t", "Z", (3,))]),
     "d(x,y) d(z,w) X(x) Y(z)": (4, [("d", 0, 1), ("d", 2, 3), ("t", "X", (0,)), ("t", "Y", (2,))]),
 }
@@ -530,6 +615,7 @@ def make_indices(alg, types):
 
 
 TRIVIAL = ("d(x,y)", "X(x) Y(x,y)")
+PAIRS = ("d(x,y) X(x) Y(y)", "d(x,y) X(x)")     # enumerated over all 81 (space, spin) pairs
 
 
 def scenarios(tier):
@@ -539,9 +625,10 @@ def scenarios(tier):
     (summation convention, every subset of the indices as Index list, and as name string when spin-less), restricted
     to the precondition of the property.  2-index templates run over all 81 assignments, 3-index ones over all 729
     (thorough) or QUICK3, 4-index ones over QUICK3 (thorough) or QUICK4.  Always evaluated (never sampled): every
-    template under the all-(occ, no spin) assignment with every delta/factor order and every target mode, and the
-    2-index templates in the given factor order with convention / Index-list targets; of the rest a deterministic
-    hash sample per template (quick: about 100, thorough: about 2500)."""
+    template under the all-(occ, no spin) assignment with every delta/factor order and every target mode (4-index
+    templates: convention and Index-list targets; three deltas: given factor order), and the
+    templates PAIRS over all 81 assignments in the given factor order with convention / Index-list targets; of the rest a deterministic
+    hash sample per template (quick: about 50, thorough: about 1200)."""
     full = tier == "thorough"
     for name, (n, spec) in list(TEMPLATES.items()) + list(SUMS.items()):
         is_sum = name in SUMS
@@ -577,13 +664,14 @@ def scenarios(tier):
                 r = targets_of(alg, idx, e, mode)
                 if r is not None and precondition(alg, e, r[0]):
                     cands.extend((types, v, mode) for v in variants)
-        goal = (2500 if full else 40 if name in TRIVIAL else 100)
+        goal = (1200 if full else 40 if name in TRIVIAL else 100 if name in PAIRS else 50)
         p = min(1.0, goal / max(1, len(cands)))
         for k, (types, (flip, rev), mode) in enumerate(cands):
             plain = mode == "sum" or mode[0] == "list"
             # never sampled: the all-(occ, no spin) assignment in every order and target mode (control flow: chains,
             # restarts, target passing) and the 2-index templates in their given factor order (information handling)
-            always = name not in TRIVIAL and (all(t == ("occ", "") for t in types) or (plain and n == 2 and not rev))
+            core = all(t == ("occ", "") for t in types) and (plain or n <= 3) and (nd <= 2 or not rev)
+            always = name not in TRIVIAL and (core or (plain and name in PAIRS and not rev))
             u = ((k + 1) * 2654435761 % 4294967296) / 4294967296
             if not always and u >= p:
                 continue
@@ -692,7 +780,8 @@ def r09ac(ctx, tier):
             msg = (f"{show_term(e)} -> {show_term(res)} changes the value: for targets "
                    f"{dict(zip([i.name for i in targets], k))} expected {_poly(want.get(k))}, got {_poly(got.get(k))}")
         tally.check("R09c", "value", label, want == got, f"value preserved for all {len(want)} non-vanishing target assignments", msg)
-        left = [f for t in terms_of(res) for f in factors_of(t) if kind(f) == "delta" and evaluable(f.args[0], f.args[1], targets)]
+        # (a term that is a bare delta is not a product: evaluate_deltas returns it untouched by design)
+        left = [f for t in terms_of(res) if kind(t) == "mul" for f in factors_of(t) if kind(f) == "delta" and evaluable(alg, f, t, targets)]
         tally.check("R09c", "normal form", label, not left, "no evaluable delta left",
                     f"{show_term(e)} -> {show_term(res)} leaves {left[0].name if left else ''} although one of its indices "
                     "is not a target and can be replaced without loss of information (stale deltas / wrong targets)")
@@ -749,7 +838,149 @@ def r09b(ctx):
                   f"space/spin equality is {want}", key=f"eq {label}")
 
 
+# ------------------------------------------------------------------ R09d: the callers that hand targets over
+
+WICKS = "func:wicks"
+FOCK = "expr_container:Obj.diagonalize_fock"
+# operator strings: (label, [(operator, index position)], [tensor (name, index positions)])
+WICK_STRINGS = [
+    ("Fd(x) F(y)", [("Fd", 0), ("F", 1)], 2),
+    ("F(x) Fd(y)", [("F", 0), ("Fd", 1)], 2),
+    ("Fd(x) F(y) Fd(z) F(w)", [("Fd", 0), ("F", 1), ("Fd", 2), ("F", 3)], 4),
+    ("Fd(x) Fd(y) F(z) F(w)", [("Fd", 0), ("Fd", 1), ("F", 2), ("F", 3)], 4),
+]
+WICK_SPACES = ("occ", "virt", "general")
+
+
+def wick_scenarios(tier):
+    """Operator strings times tensors that carry a subset of the operator indices (those indices are contracted in
+    the input, the others are its target indices)."""
+    for name, ops, n in WICK_STRINGS:
+        pool = WICK_SPACES if n == 2 or tier == "thorough" else ("occ", "general")
+        for spaces in itertools.product(pool, repeat=n):
+            if n == 4 and tier != "thorough" and spaces.count("general") not in (0, 2, 4):
+                continue
+            for r in range(n + 1):
+                for on_tensor in itertools.combinations(range(n), r):
+                    if n == 4 and r not in (0, 2, 4):
+                        continue
+                    alg = Algebra()
+                    idx = make_indices(alg, [(sp, "") for sp in spaces])
+                    fs = []
+                    if on_tensor:   # one tensor per contracted index pair / single index
+                        for k in range(0, len(on_tensor), 2):
+                            fs.append(alg.tensor("XYZW"[k // 2], [idx[j] for j in on_tensor[k:k + 2]]))
+                    fs += [alg.op(w, idx[k]) for w, k in ops]
+                    e = alg._atom(None, "*".join(f.name for f in fs), kind="mul", args=tuple(fs), _classes=("Mul", "Expr", "Basic"),
+                                  func=lambda sx, a, kw, alg=alg: alg.mul(a))
+                    label = f"{name} [{' '.join(sp[0] for sp in spaces)}] tensors on {{{','.join(idx[k].name for k in on_tensor)}}}"
+                    yield label, alg, e, [i for k, i in enumerate(idx) if k not in on_tensor]
+
+
+def r09d_wicks(ctx, tier):
+    fn = ctx.model.fn(WICKS)
+    tally = Tally(ctx, fn)
+    n = n_subs = 0
+    for label, alg, e, targets in wick_scenarios(tier):
+        sx = make_sx(ctx, alg, "wicks " + label)
+        res = {}
+        for flag in (False, True):
+            alg.log.clear()
+            outs = sx.run(fn, lambda: dict(expr=e, rules=None, simplify_kronecker_deltas=flag))
+            if len(outs) != 1:
+                raise AnalysisError(f"C09: wicks on {label} is not deterministic on the concrete model: {outs}")
+            o = outs[0]
+            if o.kind == "raise":
+                res = None
+                tally.check("R09d", "wicks completes", label, False, "", f"raises {o.exc} (simplify_kronecker_deltas={flag})")
+                break
+            if kind(o.value) is None:
+                raise AnalysisError(f"C09: result of wicks on {label} is outside the model: {o.value!r}")
+            res[flag] = o.value
+        if res is None:
+            continue
+        n += 1
+        problems = []
+        for before, old, new in alg.log:
+            n_subs += 1
+            if old in targets:
+                problems.append(f"{ilabel(old)} -> {ilabel(new)} in {show_term(before)}: the removed index is a target index of the "
+                                "operator string (it sits on a single object of the input)")
+            if not geq(new, old):
+                problems.append(f"{ilabel(old)} -> {ilabel(new)} in {show_term(before)}: information lost")
+        tally.check("R09d", "wicks substitutions", label, not problems,
+                    f"{len(alg.log)} substitution(s), no target index of the input removed", "; ".join(problems[:3]))
+        want, got = valuation(alg, res[False], targets), valuation(alg, res[True], targets)
+        msg = ""
+        if want != got:
+            k = next(k for k in sorted(set(want) | set(got)) if want.get(k) != got.get(k))
+            msg = (f"wicks gives {show_term(res[False])}, with simplify_kronecker_deltas {show_term(res[True])}: for targets "
+                   f"{dict(zip([i.name for i in targets], k))} expected {_poly(want.get(k))}, got {_poly(got.get(k))}")
+        tally.check("R09d", "wicks value", label, want == got, "evaluating the deltas of the contraction preserves the value", msg)
+    if tally.flush():
+        ctx.floor("R09d", "operator strings contracted by wicks", n, 60)
+        ctx.floor("R09d", "substitutions observed inside wicks", n_subs, 40)
+
+
+def r09d_fock(ctx):
+    """Obj.diagonalize_fock: f_pq * delta_pq is handed to evaluate_deltas with the targets of the term."""
+    fn = ctx.model.fn(FOCK)
+    tally = Tally(ctx, fn)
+    n = n_sub = 0
+    for t1, t2 in itertools.product(TYPES, repeat=2):
+        for sel in ((), (0,), (1,), (0, 1)):
+            for explicit in (False, True):
+                alg = Algebra()
+                p, q = make_indices(alg, [t1, t2])
+                if not (dom(p) & dom(q)):
+                    continue
+                targets = [(p, q)[k] for k in sel]
+                f = alg.tensor("f", [p, q])
+                term = alg._atom("expr_container:Term", "term", target=tuple(targets))
+                me = alg._atom("expr_container:Obj", "obj", idx=(p, q), sympy=f, exponent=1, term=term, assumptions={})
+                me.attrs["name"] = "f"
+                label = f"f(p,q) [{tlabel(t1)} {tlabel(t2)}] targets {{{','.join(i.name for i in targets)}}} {'given' if explicit else 'of the term'}"
+                hooks = alg.hooks()
+                hooks["tensor_names"] = alg._atom(None, "tensor_names", fock="f", orb_energy="e")
+                sx = Symex(ctx.model, inline=lambda qn: True, hooks=hooks, what="diagonalize_fock " + label, max_depth=40, max_paths=64,
+                           recursion_error=True)
+                outs = sx.run(fn, lambda: dict(self=me, target=tuple(targets) if explicit else None, return_sympy=True))
+                if len(outs) != 1:
+                    raise AnalysisError(f"C09: diagonalize_fock on {label} is not deterministic on the concrete model: {outs}")
+                o = outs[0]
+                if o.kind == "raise":
+                    tally.check("R09d", "diagonalize_fock completes", label, False, "", f"raises {o.exc}")
+                    continue
+                if not (isinstance(o.value, tuple) and len(o.value) == 2 and kind(o.value[0]) is not None and isinstance(o.value[1], dict)):
+                    raise AnalysisError(f"C09: result of diagonalize_fock on {label} is outside the model: {o.value!r}")
+                n += 1
+                diag, sub = o.value
+                problems = []
+                for old, new in list(sub.items()) + [(old, new) for _, old, new in alg.log]:
+                    n_sub += 1
+                    if {old, new} != {p, q}:
+                        problems.append(f"{ilabel(old)} -> {ilabel(new)}: not the two indices of the fock element")
+                    if old in targets:
+                        problems.append(f"{ilabel(old)} -> {ilabel(new)}: the removed index is a target index of the term")
+                    if not geq(new, old):
+                        problems.append(f"{ilabel(old)} -> {ilabel(new)}: information lost")
+                tally.check("R09d", "diagonalize_fock substitution", label, not problems,
+                            "the returned substitution removes a contracted index without loss of information", "; ".join(problems[:3]))
+                # value of the diagonal: f_pq delta_pq summed over the non-targets = e_r for the surviving index
+                if sub:
+                    want = valuation(alg, alg.mul([alg.tensor("e", [p]), alg.delta(p, q, evaluate=False)]), targets)
+                    got = valuation(alg, diag, targets)
+                    tally.check("R09d", "diagonalize_fock value", label, want == got, "diagonal element on the surviving index",
+                                f"returns {show_term(diag)} with substitution {{{', '.join(f'{a.name}: {b.name}' for a, b in sub.items())}}}")
+    if tally.flush():
+        ctx.floor("R09d", "fock elements diagonalised", n, 200)
+        ctx.floor("R09d", "substitutions returned by diagonalize_fock", n_sub, 100)
+
+
 def run(ctx):
+    if ctx.want("R09d"):
+        r09d_wicks(ctx, ctx.tier)
+        r09d_fock(ctx)
     if ctx.want("R09a") or ctx.want("R09c"):
         r09ac(ctx, ctx.tier)
     if ctx.want("R09b"):
